@@ -54,7 +54,9 @@ func genShapes(rng *rand.Rand) ([]rig.Attr, []string) {
 	}
 	add("base", func(a *rig.Attr) {})
 	add("otc", func(a *rig.Attr) { a.OTC = 64666 })
-	add("unknown-attr", func(a *rig.Attr) { a.Unknown = []rig.Unk{{Optional: true, Transitive: true, Type: 222, Value: []byte{1, 2, 3}}} })
+	add("unknown-attr", func(a *rig.Attr) {
+		a.Unknown = []rig.Unk{{Optional: true, Transitive: true, Type: 222, Value: []byte{1, 2, 3}}}
+	})
 	add("atomic-aggregate", func(a *rig.Attr) { a.AtomicAgg = true; a.Aggregator = &[2]uint32{0x0A090909, 64999} })
 	add("med", func(a *rig.Attr) { a.MED += 7 })
 	add("nexthop", func(a *rig.Attr) { a.NextHop = 0xC6336409 })
@@ -125,7 +127,7 @@ func genHist(rng *rand.Rand, nops int) hist {
 
 type stats struct {
 	ops, dumps, pairs, withdrawals, sharedReleases, maxInUse int
-	sharedID, unhashedPair                                    bool
+	sharedID, unhashedPair                                   bool
 }
 
 type result struct {
